@@ -52,6 +52,11 @@ CORPUS = [
      '(join inner ((a (ds DS_1)) (b (ds DS_2))) _ (rename (drop %s ("a#Me_1")) (("b#Me_1" "X"))))' % J,
      {'DS_1': _ds([I1], [M1], [(1, 10), (2, 20)]), 'DS_2': _ds([I1], [M1, M5], [(1, 100, 5), (3, 300, 6)])},
      dict(kind='inner', struct='equal', nops=2, body=['drop', 'rename'])),
+    ('full-join-identifiers-declared-in-different-order',
+     'DS_r <- full_join(DS_1 as a, DS_2 as b);',
+     '(join full ((a (ds DS_1)) (b (ds DS_2))) _ %s)' % J,
+     {'DS_1': _ds([I1, I2], [M1], [(1, 'a', 10), (2, 'b', 20)]), 'DS_2': _ds([I2, I1], [M5], [('a', 1, 100), ('c', 3, 300)])},
+     dict(kind='full', struct='equal', nops=2, must_accept=True)),
     ('left3-nested',
      'DS_r <- left_join(DS_1 as a, DS_2 as b, DS_3 as c keep a#Me_1, Me_5);',
      '(join left ((a (ds DS_1)) (b (ds DS_2)) (c (ds DS_3))) _ (keep %s ("a#Me_1" "Me_5")))' % J,
@@ -115,6 +120,9 @@ def compare(case, ans, eng_out):
             return 'agree', 'ambiguity rejected: ' + str(eng_out[2])
         return 'DISAGREE:ambiguous-reference-not-rejected', eng_out[:3]
     v, d = R.compare(case, ans, eng_out)
+    if case.get('must_accept') and v.startswith('skip:semantic-reject'):
+        # a join that is valid VTL (and defined in the model) must not be rejected
+        return 'DISAGREE:valid-join-rejected', eng_out[:3]
     if v == 'skip:model-type' and eng_out[0] == 'ok':
         return 'DISAGREE:model-rejects', eng_out[1].get('DS_r', ('?',))[1:2]
     if v == 'skip:model-name' and eng_out[0] == 'ok':
@@ -148,6 +156,8 @@ def classify(case, verdict, eng_out):
     head = '%s_join:%dops:%s' % (case['kind'], case['nops'], case['struct'])
     if case.get('corpus'):
         head = 'corpus:' + case['label']
+    if what == 'valid-join-rejected':
+        return '%s:%s:%s' % (head, what, eng_out[2])
     if what == 'ambiguous-reference-not-rejected':
         return '%s:%s:%s' % (head, what, 'result-returned' if eng_out[0] == 'ok' else eng_out[1].split('.')[-1])
     if what in ('keys', 'engine-duplicate-keys'):
@@ -174,7 +184,7 @@ def replay_dict(c, v, d, e, a, n):
     return {'script': c['vtl'], 'structures': G.structures(c['env']),
             'env': {k: {'ids': x['ids'], 'meas': x['meas'], 'rows': [[str(y) if isinstance(y, __import__('fractions').Fraction) else y for y in r] for r in x['rows']]}
                     for k, x in c['env'].items()},
-            'meta': {k: c.get(k) for k in ('kind', 'struct', 'nops', 'using', 'body', 'ambiguous_ref', 'label', 'corpus')},
+            'meta': {k: c.get(k) for k in ('kind', 'struct', 'nops', 'using', 'body', 'ambiguous_ref', 'must_accept', 'label', 'corpus')},
             'sx': c['sx'], 'model_answer': a, 'engine': [str(x)[:800] for x in e], 'verdict': v, 'detail': str(d)[:600], 'occurrences': n}
 
 
@@ -246,7 +256,7 @@ def main(ck):
     res = run_cases(ck, cases)
 
     hist = collections.Counter()
-    dist = {k: collections.Counter() for k in ('kind', 'operands', 'structure', 'key_overlap', 'body_clause', 'body_length', 'using',
+    dist = {k: collections.Counter() for k in ('kind', 'operands', 'structure', 'key_overlap', 'body_clause', 'body_length', 'using', 'operand_form',
                                                'aliases', 'duplicated_names', 'result_rows', 'input_rows')}
     groups = collections.defaultdict(list)
     for c, v, d, e, a in res:
@@ -263,6 +273,7 @@ def main(ck):
                 dist['body_clause'][b] += 1
             dist['body_length'][str(len(c.get('body') or []))] += 1
             dist['using'][str(bool(c.get('using')))] += 1
+            dist['operand_form'][c.get('variant', 'plain')] += 1
             dist['aliases'][('all' if all(c['aliases']) else 'some' if any(c['aliases']) else 'none') if c.get('aliases') else '?'] += 1
             dist['duplicated_names'][str(min(len(c.get('dup_names', [])), 4))] += 1
             dist['result_rows'][str(min(d if isinstance(d, int) else 0, 10))] += 1
